@@ -76,9 +76,11 @@ func (context *CHFContext) NewCHFUe(supi string) (*ChfUe, error) {
 	if strings.HasPrefix(supi, "imsi-") {
 		ue := ChfUe{}
 		ue.init()
+		ue.Supi = supi
 
-		if supi != "" {
-			context.AddChfUeToUePool(&ue, supi)
+		// Concurrent creates for a new subscriber must end up with one shared context
+		if actual, loaded := context.UePool.LoadOrStore(supi, &ue); loaded {
+			return actual.(*ChfUe), nil
 		}
 
 		return &ue, nil
